@@ -286,6 +286,40 @@ pub fn dec_string<const B: usize>(raw: &[u8]) -> u32 {
             return E_ERR_MOVED_OFFSET;
         }
         core::mem::forget(r);
+        // a string that IS there must be returned: the first NUL inside the window (the rest of the stream, cut to the limit),
+        // ASCII bytes before it, and the word holding the NUL inside the stream and the limit
+        let rest = len - st.offset;
+        let window = match st.limit {
+            Some(l) => {
+                if l <= rest / 4 {
+                    l * 4
+                } else {
+                    rest
+                }
+            }
+            None => rest,
+        };
+        let mut p = window;
+        let mut ascii = true;
+        let mut j = 0;
+        while j < window {
+            if p == window {
+                if st.buf[st.offset + j] == 0 {
+                    p = j;
+                } else if st.buf[st.offset + j] >= 0x80 {
+                    ascii = false;
+                }
+            }
+            j += 1;
+        }
+        if p < window && ascii {
+            let words = p / 4 + 1;
+            let fits_stream = words * 4 <= rest;
+            let fits_limit = st.limit.map_or(true, |l| words <= l);
+            if fits_stream && fits_limit {
+                return E_SPURIOUS_ERROR;
+            }
+        }
     }
     0
 }
